@@ -233,7 +233,7 @@ def run(tier: str, seed: int, workers: int):
                  ("builder", 3, ("end", 1), 0), ("3phase", 3, ("end", 0), 0)]
     else:
         plans = [("builder", 2, 4, 2), ("api", 2, 4, 1), ("3phase", 3, 3, 1), ("builder", 3, 3, 1), ("api", 3, 2, 1),
-                 ("api", 3, ("end", 1), 1)]
+                 ("api", 3, ("end", 1), 0), ("builder", 3, ("end", 1), 0)]
     for kind, n, length, bound in plans:
         for firsts in itertools.product((0, 1, 2), repeat=n):
             if min(firsts) != 0:
